@@ -510,8 +510,11 @@ func c19(c *Ctx) {
 					}
 				}
 			case *ast.BinaryExpr:
-				if (x.Op == token.NEQ || x.Op == token.EQL) && isNilIdent(info, x.Y) && isErrVar(info, x.X) {
-					return constant.MakeBool(x.Op == token.NEQ), true
+				if (x.Op == token.NEQ || x.Op == token.EQL) && isNilIdent(info, x.Y) {
+					// an error-typed variable or field (the joined error may live in a struct)
+					if tv, ok := info.Types[x.X]; ok && tv.Type != nil && types.Identical(tv.Type, types.Universe.Lookup("error").Type()) {
+						return constant.MakeBool(x.Op == token.NEQ), true
+					}
 				}
 			}
 			return nil, false
